@@ -577,6 +577,26 @@ OBJ_CHARS_ALL = [' ', '#', '+', '@', '=', '$', '&', '!', '{', '}', '~', '^', '<'
                  ';', '|', '`'] + WS_SPECIALS
 
 
+def directed_sibling(lang, incmode='hdrdir'):
+    """A header WITHOUT an extension that sits next to a source file of the same name
+    (inc/widget beside inc/widget.cpp, as in C++ libraries with standard-library-style header
+    names): the rule-less target a depfile line makes of the header is exactly what a build tool's
+    own 'X from X.<ext>' rules match."""
+    ext = '.cpp' if lang == 'c++' else '.c'
+    H = {'1': {'name': 'widget', 'plain': 'widget', 'dir': 0, 'base': 5, 'inc': []},
+         '2': {'name': 'sub/gadget', 'plain': 'sub/gadget', 'dir': 0, 'base': 7, 'inc': [['1', 2]]}}
+    T = {'0': {'file': 'main' + ext, 'base': 1, 'lib': False, 'inc': [['1', 3], ['2', 1]]},
+         '1': {'file': 'inc/widget' + ext, 'base': 2, 'lib': False, 'inc': [['1', 4]]},
+         '2': {'file': 'inc/sub/gadget' + ext, 'base': 3, 'lib': False, 'inc': [['2', 5]]}}
+    st = {'lang': lang, 'incmode': incmode, 'incdirs': ['inc'], 'incdirs_plain': ['inc'],
+          'headers': H, 'tus': T, 'work_in_progress': False}
+    hist = [{'op': 'mod_source', 't': '1', 'base': 12}, {'op': 'noop'},
+            {'op': 'mod_header', 'h': '1', 'base': 6}, {'op': 'noop'},
+            {'op': 'mod_source', 't': '2', 'base': 13}, {'op': 'mod_source', 't': '1', 'base': 14},
+            {'op': 'noop'}, {'op': 'clean'}]
+    return st, hist
+
+
 def directed_objpath(lang, c, incmode='hdrdir'):
     """Four TUs whose objects differ in where the character sits: main (plain, in the
     executable), s<c>d/tu1 (source sub-directory), tu<c>2 (source file name), tul (plain
